@@ -460,6 +460,117 @@ with duc_else (n : nat) (e : list stmt) : list stmt :=
 Definition delete_unreachable_code_model (p : list stmt) : list stmt := fixb (duc_scan (2 * fuel_of p) p).
 
 (* ---------------------------------------------------------------------------------------------- *)
+(* fixes.early_return (fixes.py:1290-1322): the function body ends with `<if>; return x` and every path
+   through the trailing if/elif/else chain (recursively through last statements that are ifs, all with an
+   else) ends with `x = <value>`: each such assignment becomes `return <value>`, the final return is
+   deleted. *)
+Definition er_go (rec : list stmt -> option (list stmt)) (x : var) : list stmt -> option (list stmt) :=
+  fix go (b : list stmt) : option (list stmt) :=
+    match b with
+    | [] => None
+    | [s] =>
+        match s with
+        | SAssign y r => if Nat.eqb y x then Some [SReturn r] else None
+        | SIf t bb ee =>
+            match rec bb, rec ee with
+            | Some b', Some e' => Some [SIf t b' e']
+            | _, _ => None
+            end
+        | _ => None
+        end
+    | s :: tl => option_map (cons s) (go tl)
+    end.
+Fixpoint er_block (n : nat) (x : var) (b : list stmt) : option (list stmt) :=
+  match n with
+  | O => None
+  | S n' => er_go (er_block n' x) x b
+  end.
+Fixpoint er_top (n : nat) (p : list stmt) : list stmt :=
+  match p with
+  | [SIf t b e; SReturn (RVar x)] =>
+      match er_block n x [SIf t b e] with Some q => q | None => p end
+  | s :: tl => s :: er_top n tl
+  | [] => []
+  end.
+Definition early_return_model (p : list stmt) : list stmt := er_top (fuel_of p) p.
+
+(* ---------------------------------------------------------------------------------------------- *)
+(* fixes.early_continue (fixes.py:1336-1371; one application through processing.alter_code): in a `for` loop
+   whose last statement is an `if` that does not already end with `continue`:
+     - if that `if` or an `if` nested in its else part has an else of more than 2 statements, `continue` is
+       appended to its body;
+     - else if it has no else, enough statements and spans >= 6 lines, it becomes `if not t: continue else: body`. *)
+Fixpoint nlines (s : stmt) : nat :=
+  match s with
+  | SIf _ b e =>
+      1 + list_sum (map nlines b) +
+      match e with
+      | [] => 0
+      | [SIf _ _ _ as i] => nlines i            (* printed as elif *)
+      | _ => 1 + list_sum (map nlines e)
+      end
+  | SLoop _ b e =>
+      1 + list_sum (map nlines b) + match e with [] => 0 | _ => 1 + list_sum (map nlines e) end
+  | _ => 1
+  end.
+(* some If in the subtree (the node included) has more than 2 statements in its else *)
+Fixpoint big_else (s : stmt) : bool :=
+  match s with
+  | SIf _ b e => (2 <? length e) || existsb big_else b || existsb big_else e
+  | SLoop _ b e => existsb big_else b || existsb big_else e
+  | _ => false
+  end.
+(* sum of (len(body) - 1) over the compound statements nested in a block (iter_bodies_recursive) *)
+Fixpoint body_excess (s : stmt) : nat :=
+  match s with
+  | SIf _ b e => (length b - 1) + list_sum (map body_excess b) + list_sum (map body_excess e)
+  | SLoop _ b e => (length b - 1) + list_sum (map body_excess b) + list_sum (map body_excess e)
+  | _ => 0
+  end.
+Definition ends_with_continue (b : list stmt) : bool :=
+  match rev b with SContinue :: _ => true | _ => false end.
+
+(* Some (new statement, replaced?) when the rule fires on the last statement of a for body *)
+Definition ec_last (s : stmt) : option (stmt * bool) :=
+  match s with
+  | SIf t bb ee =>
+      if ends_with_continue bb then None
+      else if (2 <? length ee) || existsb big_else ee then Some (SIf t (bb ++ [SContinue]) ee, false)
+      else if (3 <=? (length bb - 1) + list_sum (map body_excess bb))
+              && (5 <=? list_sum (map nlines bb) - 1)
+              && (match ee with [] => true | _ => false end)
+           then Some (SIf (negate t) [SContinue] bb, true)
+           else None
+  | _ => None
+  end.
+(* after repair (early_continue keeps only the outermost replacements): nothing is edited inside a replaced
+   `if`; a loop nested there is handled by the next run of the rule *)
+Definition ec_body (rec : stmt -> stmt) : list stmt -> list stmt :=
+  fix body (b : list stmt) : list stmt :=
+    match b with
+    | [] => []
+    | [s] => match ec_last s with
+             | Some (s', true) => [s']
+             | Some (s', false) => [rec s']
+             | None => [rec s]
+             end
+    | s :: tl => rec s :: body tl
+    end.
+Fixpoint ec1 (n : nat) (s : stmt) : stmt :=
+  match n with
+  | O => s
+  | S n' =>
+      match s with
+      | SIf t b e => SIf t (map (ec1 n') b) (map (ec1 n') e)
+      | SLoop (HFor it) b e => SLoop (HFor it) (ec_body (ec1 n') b) (map (ec1 n') e)
+      | SLoop h b e => SLoop h (map (ec1 n') b) (map (ec1 n') e)
+      | _ => s
+      end
+  end.
+Definition ec (n : nat) (p : list stmt) : list stmt := map (ec1 n) p.
+Definition early_continue_model (p : list stmt) : list stmt := ec (fuel_of p) p.
+
+(* ---------------------------------------------------------------------------------------------- *)
 (* correspondence plumbing: (rule number, input program, expected output of the real rule) *)
 Definition apply_rule (k : nat) (p : list stmt) : list stmt :=
   match k with
@@ -469,6 +580,8 @@ Definition apply_rule (k : nat) (p : list stmt) : list stmt :=
   | 3 => fix_if_assign_model p
   | 4 => swap_if_else_model p
   | 5 => delete_unreachable_code_model p
+  | 6 => early_return_model p
+  | 7 => early_continue_model p
   | _ => p
   end.
 (* expected = None: the real rule left the program unchanged *)
